@@ -234,13 +234,41 @@
     // zvt_builder uses them: which calls, on which bytes, what is trimmed, what is returned as remainder.
     /// the String with a given text (a Rust String is determined by its text)
     pub uninterp spec fn str_of(t: Seq<char>) -> String;
-    pub uninterp spec fn cp437_encodable(t: Seq<char>) -> bool;
-    pub uninterp spec fn cp437_raw_enc(t: Seq<char>) -> Seq<u8>;
-    pub uninterp spec fn cp437_raw_dec(b: Seq<u8>) -> Seq<char>;
+    /// the tables of yore's code pages, by code-page number (T3: uninterpreted, so two different pages are never provably equal)
+    pub uninterp spec fn cp_encodable(page: int, t: Seq<char>) -> bool;
+    pub uninterp spec fn cp_raw_enc(page: int, t: Seq<char>) -> Seq<u8>;
+    pub uninterp spec fn cp_raw_dec(page: int, b: Seq<u8>) -> Seq<char>;
+    pub open spec fn cp437_encodable(t: Seq<char>) -> bool { cp_encodable(437, t) }
+    pub open spec fn cp437_raw_enc(t: Seq<char>) -> Seq<u8> { cp_raw_enc(437, t) }
+    pub open spec fn cp437_raw_dec(b: Seq<u8>) -> Seq<char> { cp_raw_dec(437, b) }
     pub uninterp spec fn trim_end_spec(t: Seq<char>, c: char) -> Seq<char>;
-    /// yore::code_pages::CP437
-    pub struct CodePage;
-    pub const CP437: CodePage = CodePage;
+    /// yore::code_pages::* (the property asks for CP437; the others exist so that a change of code page is decided, not a compile error)
+    pub struct CodePage { pub page: u16 }
+    pub const CP437: CodePage = CodePage { page: 437 };
+    pub const CP737: CodePage = CodePage { page: 737 };
+    pub const CP850: CodePage = CodePage { page: 850 };
+    pub const CP852: CodePage = CodePage { page: 852 };
+    pub const CP855: CodePage = CodePage { page: 855 };
+    pub const CP857: CodePage = CodePage { page: 857 };
+    pub const CP860: CodePage = CodePage { page: 860 };
+    pub const CP861: CodePage = CodePage { page: 861 };
+    pub const CP862: CodePage = CodePage { page: 862 };
+    pub const CP863: CodePage = CodePage { page: 863 };
+    pub const CP864: CodePage = CodePage { page: 864 };
+    pub const CP865: CodePage = CodePage { page: 865 };
+    pub const CP866: CodePage = CodePage { page: 866 };
+    pub const CP869: CodePage = CodePage { page: 869 };
+    pub const CP874: CodePage = CodePage { page: 874 };
+    pub const CP910: CodePage = CodePage { page: 910 };
+    pub const CP1250: CodePage = CodePage { page: 1250 };
+    pub const CP1251: CodePage = CodePage { page: 1251 };
+    pub const CP1252: CodePage = CodePage { page: 1252 };
+    pub const CP1253: CodePage = CodePage { page: 1253 };
+    pub const CP1254: CodePage = CodePage { page: 1254 };
+    pub const CP1255: CodePage = CodePage { page: 1255 };
+    pub const CP1256: CodePage = CodePage { page: 1256 };
+    pub const CP1257: CodePage = CodePage { page: 1257 };
+    pub const CP1258: CodePage = CodePage { page: 1258 };
     #[verifier::external_body]
     pub struct VCowBytes { _p: u8 }
     #[verifier::external_body]
@@ -254,10 +282,10 @@
     impl CodePage {
         #[verifier::external_body]
         pub fn encode(&self, s: &String) -> (r: core::result::Result<VCowBytes, VEncodeError>)
-            ensures r is Ok <==> cp437_encodable(s@), r matches Ok(b) ==> b@ == cp437_raw_enc(s@),
+            ensures r is Ok <==> cp_encodable(self.page as int, s@), r matches Ok(b) ==> b@ == cp_raw_enc(self.page as int, s@),
         { unimplemented!() }
         #[verifier::external_body]
-        pub fn decode(&self, b: &[u8]) -> (r: VCowStr) ensures r@ == cp437_raw_dec(b@) { unimplemented!() }
+        pub fn decode(&self, b: &[u8]) -> (r: VCowStr) ensures r@ == cp_raw_dec(self.page as int, b@) { unimplemented!() }
     }
     impl VCowBytes {
         pub uninterp spec fn view(&self) -> Seq<u8>;
